@@ -320,8 +320,8 @@ def run(ctx):
     for sc in scen:
         check_contract(sc["threads"])
     byname = {sc["name"]: sc for sc in scen}
-    nwalks = 300 if ctx.quick else 5000
-    ntrans = 400 if ctx.quick else 20000
+    nwalks = 300 if ctx.quick else 1500
+    ntrans = 400 if ctx.quick else 3000
 
     # ---- 1. model level (two single-worker TLC processes at a time) ---------------------------------------------
     def account(mod, cfg, r, **kw):
@@ -404,7 +404,7 @@ def run(ctx):
                 "walks_replayed": len(scheds) - ntests, "transition_tests": ntests, "paths_exhaustive": exhaustive,
                 "refcount_reached_zero_in": destroyed}
         if sc["name"] in EXPLORE:
-            metas = collect(ctx, exe, "explore", sc, str(20000 if ctx.quick else 400000), "explore", executions, timeout=1500)
+            metas = collect(ctx, exe, "explore", sc, str(20000 if ctx.quick else 60000), "explore", executions, timeout=1500)
             last = metas[-1] if metas else {}
             info.update({"code_interleavings": last.get("explored"), "code_exhaustive": last.get("exhaustive")})
         ctx.extra.setdefault("scenarios", []).append(info)
@@ -414,7 +414,7 @@ def run(ctx):
     if not want_actions <= seen_actions:
         raise tlc.TLCError("vacuity guard: actions never taken in any scenario: %s" % sorted(want_actions - seen_actions))
     for name in STRESS:
-        collect(ctx, exe, "stress", byname[name], str(150 if ctx.quick else 5000), "stress", executions)
+        collect(ctx, exe, "stress", byname[name], str(150 if ctx.quick else 2000), "stress", executions)
 
     # ---- 4. verdict: trace validation ---------------------------------------------------------------------------------
     ctx.evaluations = len(executions)
